@@ -386,9 +386,9 @@ func genAlign(c *Ctx, prop string) {
 		}
 	}
 	rec(nil)
-	nm := 3
+	nm := 6
 	if c.thor {
-		nm = 10
+		nm = 20
 	}
 	for k := 0; k < nm; k++ {
 		open := opens[c.rng.Intn(len(opens))]
@@ -403,11 +403,11 @@ func genAlign(c *Ctx, prop string) {
 		}
 	}
 	// random longer pairs over random matrices
-	for i := 0; i < c.n(150); i++ {
+	for i := 0; i < c.n(500); i++ {
 		al := []byte("acgt")[:2+c.rng.Intn(3)]
 		open := opens[c.rng.Intn(len(opens))]
 		mt := c.randMatrix(al, c.rng.Intn(2) == 0, prop != "C08" || c.rng.Intn(3) != 0, open)
-		alignCase(c, prop, mt, c.bytesFrom(al, c.rng.Intn(40)), c.bytesFrom(al, c.rng.Intn(40)), "random")
+		alignCase(c, prop, mt, c.bytesFrom(al, c.rng.Intn(60)), c.bytesFrom(al, c.rng.Intn(60)), "random")
 	}
 	if prop == "C10" {
 		// the suite's own affine test matrix shape: match/mismatch/gap/open
@@ -435,7 +435,7 @@ func genAlign(c *Ctx, prop string) {
 		return
 	}
 	// shipped matrices
-	for i := 0; i < c.n(60); i++ {
+	for i := 0; i < c.n(150); i++ {
 		name := shippedNames[c.rng.Intn(len(shippedNames))]
 		m := shippedMat(name)
 		a := c.bytesFrom([]byte(protAlpha), c.rng.Intn(50))
